@@ -512,9 +512,103 @@ def reflection(ctx):
     ctx.case('C15/reflection', key='reflection')
 
 
+def defaults(ctx):
+    """INFORMATIONAL (recorded under notes.default_differs in the evidence, never a violation: the statement fixes the equivalence of the explicit
+    forms, not the defaults).  An omitted unit / order / flag means its documented default: the call without the argument equals the call with the default spelt
+    out, positionally or by keyword (angles are radians, orders are 'zyx', flip / shortest are off, normalisation and validation are on)"""
+    import spatialmath as sm
+    import spatialmath.base as b
+    R = ref.rpy(0.3, -0.5, 1.1, 'zyx')
+    T = ref.rt(R, (1.0, 2.0, 3.0))
+    T2 = ref.rt(ref.rot2(0.7), (1.0, 2.0))
+    q0, q1 = ref.r2q_ref(ref.rotx(0.3)), ref.r2q_ref(ref.roty(2.9) @ ref.rotx(-2.0))
+    v = [0.6, 0.0, 0.8]
+    A3 = [0.3, -0.5, 1.1]
+    P = [
+        ('base.rotx', lambda: b.rotx(0.3), [lambda: b.rotx(0.3, 'rad'), lambda: b.rotx(0.3, unit='rad')]),
+        ('base.trotx', lambda: b.trotx(0.3), [lambda: b.trotx(0.3, 'rad'), lambda: b.trotx(0.3, unit='rad', t=None)]),
+        ('base.rot2', lambda: b.rot2(0.3), [lambda: b.rot2(0.3, 'rad'), lambda: b.rot2(0.3, unit='rad')]),
+        ('base.trot2', lambda: b.trot2(0.3), [lambda: b.trot2(0.3, 'rad'), lambda: b.trot2(0.3, unit='rad', t=None)]),
+        ('base.rpy2r', lambda: b.rpy2r(A3), [lambda: b.rpy2r(A3, unit='rad', order='zyx'), lambda: b.rpy2r(A3[0], A3[1], A3[2], unit='rad', order='zyx'), lambda: b.rpy2r(A3, order='vehicle')]),
+        ('base.rpy2tr', lambda: b.rpy2tr(A3), [lambda: b.rpy2tr(A3, unit='rad', order='zyx')]),
+        ('base.eul2r', lambda: b.eul2r(A3), [lambda: b.eul2r(A3, unit='rad'), lambda: b.eul2r(A3[0], A3[1], A3[2], unit='rad')]),
+        ('base.eul2tr', lambda: b.eul2tr(A3), [lambda: b.eul2tr(A3, unit='rad')]),
+        ('base.angvec2r', lambda: b.angvec2r(0.3, v), [lambda: b.angvec2r(0.3, v, unit='rad')]),
+        ('base.tr2rpy', lambda: b.tr2rpy(R.copy()), [lambda: b.tr2rpy(R.copy(), unit='rad', order='zyx'), lambda: b.tr2rpy(R.copy(), 'rad', 'zyx'), lambda: b.tr2rpy(R.copy(), order='vehicle')]),
+        ('base.tr2eul', lambda: b.tr2eul(R.copy()), [lambda: b.tr2eul(R.copy(), unit='rad', flip=False), lambda: b.tr2eul(R.copy(), 'rad', False)]),
+        ('base.tr2angvec', lambda: b.tr2angvec(R.copy()), [lambda: b.tr2angvec(R.copy(), unit='rad'), lambda: b.tr2angvec(R.copy(), 'rad')]),
+        ('base.tr2xyt', lambda: b.tr2xyt(T2.copy()), [lambda: b.tr2xyt(T2.copy(), unit='rad')]),
+        ('base.xyt2tr', lambda: b.xyt2tr([1.0, 2.0, 0.7]), [lambda: b.xyt2tr([1.0, 2.0, 0.7], unit='rad')]),
+        ('base.trlog', lambda: b.trlog(T.copy()), [lambda: b.trlog(T.copy(), check=True, twist=False), lambda: b.trlog(T.copy(), True, False)]),
+        ('base.trlog2', lambda: b.trlog2(T2.copy()), [lambda: b.trlog2(T2.copy(), check=True, twist=False)]),
+        ('base.trexp', lambda: b.trexp(np.array(A3)), [lambda: b.trexp(np.array(A3), theta=None), lambda: b.trexp(np.array(A3), None)]),
+        ('base.slerp', lambda: b.slerp(q0, q1, 0.4), [lambda: b.slerp(q0, q1, 0.4, shortest=False), lambda: b.slerp(q0, q1, 0.4, False)]),
+        ('base.trinterp', lambda: b.trinterp(None, T.copy(), 0.4), [lambda: b.trinterp(start=None, end=T.copy(), s=0.4), lambda: b.trinterp(np.eye(4), T.copy(), 0.4)]),
+        ('base.getunit', lambda: b.getunit(0.3), [lambda: b.getunit(0.3, 'rad'), lambda: b.getunit(0.3, unit='rad')]),
+        ('SO3.Rx', lambda: sm.SO3.Rx(0.3), [lambda: sm.SO3.Rx(0.3, 'rad'), lambda: sm.SO3.Rx(0.3, unit='rad'), lambda: sm.SO3.Rx(theta=0.3)]),
+        ('SE3.Ry', lambda: sm.SE3.Ry(0.3), [lambda: sm.SE3.Ry(0.3, 'rad'), lambda: sm.SE3.Ry(0.3, unit='rad', t=None), lambda: sm.SE3.Ry(0.3, 'rad', None)]),
+        ('UnitQuaternion.Rz', lambda: sm.UnitQuaternion.Rz(0.3), [lambda: sm.UnitQuaternion.Rz(0.3, 'rad'), lambda: sm.UnitQuaternion.Rz(0.3, unit='rad')]),
+        ('Twist3.Rx', lambda: sm.Twist3.Rx(0.3), [lambda: sm.Twist3.Rx(0.3, 'rad'), lambda: sm.Twist3.Rx(0.3, unit='rad')]),
+        ('SO3.RPY', lambda: sm.SO3.RPY(A3), [lambda: sm.SO3.RPY(A3, order='zyx', unit='rad'), lambda: sm.SO3.RPY(A3, order='vehicle')]),
+        ('SE3.RPY', lambda: sm.SE3.RPY(A3), [lambda: sm.SE3.RPY(A3, order='zyx', unit='rad')]),
+        ('UnitQuaternion.RPY', lambda: sm.UnitQuaternion.RPY(A3), [lambda: sm.UnitQuaternion.RPY(A3, order='zyx', unit='rad')]),
+        ('SO3.Eul', lambda: sm.SO3.Eul(A3), [lambda: sm.SO3.Eul(A3, unit='rad')]),
+        ('SO3.AngVec', lambda: sm.SO3.AngVec(0.3, v), [lambda: sm.SO3.AngVec(0.3, v, unit='rad')]),
+        ('UnitQuaternion.AngVec', lambda: sm.UnitQuaternion.AngVec(0.3, v), [lambda: sm.UnitQuaternion.AngVec(0.3, v, unit='rad')]),
+        ('SO3.Exp', lambda: sm.SO3.Exp(np.array(A3)), [lambda: sm.SO3.Exp(np.array(A3), check=True, so3=True), lambda: sm.SO3.Exp(np.array(A3), True, True)]),
+        ('SE3.Exp', lambda: sm.SE3.Exp(np.r_[1.0, 2.0, 3.0, A3]), [lambda: sm.SE3.Exp(np.r_[1.0, 2.0, 3.0, A3], check=True)]),
+        ('SO2', lambda: sm.SO2(0.3), [lambda: sm.SO2(0.3, unit='rad'), lambda: sm.SO2(0.3, check=True, unit='rad')]),
+        ('SE2', lambda: sm.SE2(1.0, 2.0, 0.3), [lambda: sm.SE2(1.0, 2.0, 0.3, unit='rad'), lambda: sm.SE2(x=1.0, y=2.0, theta=0.3)]),
+        ('SO3', lambda: sm.SO3(R.copy()), [lambda: sm.SO3(R.copy(), check=True), lambda: sm.SO3(arg=R.copy())]),
+        ('SE3', lambda: sm.SE3(T.copy()), [lambda: sm.SE3(T.copy(), check=True)]),
+        ('SE3/xyz', lambda: sm.SE3(1.0, 2.0, 3.0), [lambda: sm.SE3(x=1.0, y=2.0, z=3.0), lambda: sm.SE3(1.0, 2.0, 3.0, check=True)]),
+        ('UnitQuaternion', lambda: sm.UnitQuaternion(2 * q0), [lambda: sm.UnitQuaternion(2 * q0, norm=True, check=True), lambda: sm.UnitQuaternion(s=2 * q0)]),
+        ('Quaternion', lambda: sm.Quaternion(2 * q0), [lambda: sm.Quaternion(2 * q0, check=True), lambda: sm.Quaternion(s=2 * q0)]),
+        ('Twist3', lambda: sm.Twist3(np.r_[1.0, 2.0, 3.0, A3]), [lambda: sm.Twist3(np.r_[1.0, 2.0, 3.0, A3], check=True), lambda: sm.Twist3(arg=np.r_[1.0, 2.0, 3.0, A3])]),
+        ('SO3.rpy', lambda: sm.SO3(R.copy()).rpy(), [lambda: sm.SO3(R.copy()).rpy(unit='rad', order='zyx'), lambda: sm.SO3(R.copy()).rpy('rad', 'zyx')]),
+        ('SE3.rpy', lambda: sm.SE3(T.copy()).rpy(), [lambda: sm.SE3(T.copy()).rpy(unit='rad', order='zyx')]),
+        ('SO3.eul', lambda: sm.SO3(R.copy()).eul(), [lambda: sm.SO3(R.copy()).eul(unit='rad', flip=False), lambda: sm.SO3(R.copy()).eul('rad', False)]),
+        ('SO3.angvec', lambda: sm.SO3(R.copy()).angvec(), [lambda: sm.SO3(R.copy()).angvec(unit='rad'), lambda: sm.SO3(R.copy()).angvec('rad')]),
+        ('UnitQuaternion.rpy', lambda: sm.UnitQuaternion(q1).rpy(), [lambda: sm.UnitQuaternion(q1).rpy(unit='rad', order='zyx')]),
+        ('UnitQuaternion.eul', lambda: sm.UnitQuaternion(q1).eul(), [lambda: sm.UnitQuaternion(q1).eul(unit='rad')]),
+        ('UnitQuaternion.angvec', lambda: sm.UnitQuaternion(q1).angvec(), [lambda: sm.UnitQuaternion(q1).angvec(unit='rad')]),
+        ('SO2.theta', lambda: sm.SO2(0.3).theta(), [lambda: sm.SO2(0.3).theta(unit='rad'), lambda: sm.SO2(0.3).theta('rad')]),
+        ('SE2.xyt', lambda: sm.SE2(T2.copy()).xyt(), []),
+        ('SE3.log', lambda: sm.SE3(T.copy()).log(), [lambda: sm.SE3(T.copy()).log(twist=False), lambda: sm.SE3(T.copy()).log(False)]),
+        ('SE3.interp', lambda: sm.SE3(T.copy()).interp(0.4), [lambda: sm.SE3(T.copy()).interp(0.4, start=None), lambda: sm.SE3(T.copy()).interp(s=0.4), lambda: sm.SE3(T.copy()).interp(0.4, start=sm.SE3())]),
+        ('SE2.interp', lambda: sm.SE2(T2.copy()).interp(0.4), [lambda: sm.SE2(T2.copy()).interp(0.4, start=None), lambda: sm.SE2(T2.copy()).interp(0.4, start=sm.SE2())]),
+        ('UnitQuaternion.interp', lambda: sm.UnitQuaternion(q0).interp(0.4, sm.UnitQuaternion(q1)), [lambda: sm.UnitQuaternion(q0).interp(0.4, dest=sm.UnitQuaternion(q1), shortest=False),
+                                                                                                  lambda: sm.UnitQuaternion(q0).interp(s=0.4, dest=sm.UnitQuaternion(q1))]),
+        ('UnitQuaternion.interp/nodest', lambda: sm.UnitQuaternion(q1).interp(0.4), [lambda: sm.UnitQuaternion(q1).interp(0.4, dest=None, shortest=False)]),
+        ('Twist3.exp', lambda: sm.Twist3([0, 0, 0, 0.6, 0, 0.8]).exp(0.3), [lambda: sm.Twist3([0, 0, 0, 0.6, 0, 0.8]).exp(0.3, 'rad'), lambda: sm.Twist3([0, 0, 0, 0.6, 0, 0.8]).exp(theta=0.3, units='rad')]),
+        ('Twist3.exp/none', lambda: sm.Twist3([0.1, 0, 0, 0.6, 0, 0.8]).exp(), [lambda: sm.Twist3([0.1, 0, 0, 0.6, 0, 0.8]).exp(None), lambda: sm.Twist3([0.1, 0, 0, 0.6, 0, 0.8]).exp(theta=None, units='rad')]),
+        ('Twist2.exp', lambda: sm.Twist2([1.0, 2.0, 1.0]).exp(0.3), [lambda: sm.Twist2([1.0, 2.0, 1.0]).exp(0.3, 'rad')]),
+        ('SE2.SE3', lambda: sm.SE2(T2.copy()).SE3(), [lambda: sm.SE2(T2.copy()).SE3(z=0), lambda: sm.SE2(T2.copy()).SE3(0)]),
+        ('SE3.Rand', lambda: (np.random.seed(3), sm.SE3.Rand())[1], [lambda: (np.random.seed(3), sm.SE3.Rand(N=1))[1]]),
+        ('SE3.Alloc', lambda: sm.SE3.Alloc(), [lambda: sm.SE3.Alloc(1), lambda: sm.SE3.Alloc(n=1)]),
+    ]
+    for site, f0, alts in P:
+        ok0, r0 = call(f0)
+        for ai, fa in enumerate(alts):
+            cid = 'C15/default/%s/%d' % (site, ai)
+            if not ctx.want(cid):
+                continue
+            ctx.case(cid, key=cid)
+            Pm = dict(entry=site.split('/')[0], what='default', alt=ai)
+            ok, r = call(fa)
+            if ok != ok0:
+                ctx.note('default_differs', '%s form %d: %s vs %s' % (site, ai, 'returns' if ok0 else 'raises', 'returns' if ok else 'raises'))
+                continue
+            if not ok:
+                continue
+            fa_, f0_ = np.array(_flat(canon(r)), dtype=float), np.array(_flat(canon(r0)), dtype=float)
+            if fa_.shape != f0_.shape or (fa_.size and np.abs(fa_ - f0_).max() > 1e-12 * max(1.0, float(np.abs(f0_).max()))):
+                ctx.note('default_differs', '%s form %d: value differs' % (site, ai))
+
+
 def shards(tier, seed):
     K = 12
-    return [('vec', k, K) for k in range(K)] + [('packed',), ('units',), ('orders',), ('reflection',)]
+    return [('vec', k, K) for k in range(K)] + [('packed',), ('units',), ('orders',), ('reflection',), ('defaults',)]
 
 
 def run_shard(ctx, shard):
@@ -527,5 +621,7 @@ def run_shard(ctx, shard):
         units(ctx)
     elif k == 'orders':
         orders(ctx)
+    elif k == 'defaults':
+        defaults(ctx)
     else:
         reflection(ctx)
